@@ -144,6 +144,16 @@ func init() {
 		if !ok {
 			return tuple{[]value(nil), i.newError(fr, "stub: read failed")}
 		}
+		// a harness may provide file contents in the variable VhFileContents (map[string]string) of the calling package
+		if c := fr.caller; c != nil && c.fn != nil && c.fn.Pkg != nil {
+			if g := c.fn.Pkg.Var("VhFileContents"); g != nil {
+				if m, isMap := (*i.globalAddr(g)).(*symMap); isMap && m != nil {
+					if content, found := m.lookup(i, path); found {
+						return tuple{append([]value(nil), strBytes(content)...), iface{}}
+					}
+				}
+			}
+		}
 		return tuple{strBytes("content-of:" + path), iface{}}
 	}
 	// the handlebars library's process-wide partial registry is environment: registrations are recorded
